@@ -499,6 +499,10 @@ def _safe_interp(e, f, ctx, depth=0):
         if d in SANITISER_FUNCS:
             if len(e.args) == 1 and isinstance(e.args[0], ast.Attribute) and not e.keywords:
                 return True, f"escaping emitter {d} applied to the attribute itself"
+            if len(e.args) == 1 and isinstance(e.args[0], ast.Name) and not e.keywords:
+                binds = ctx.inf.bindings(f).get(e.args[0].id, [])
+                if binds and all(b[0] == "assign" and isinstance(b[1], ast.Attribute) for b in binds):
+                    return True, f"escaping emitter {d} applied to a local alias of the attribute"
             return False, f"{d}() is applied to a transformed value, not to the attribute itself"
         if isinstance(e.func, ast.Attribute) and e.func.attr == "python" and not e.args:
             return True, ".python() of a checked emitter"
@@ -574,6 +578,31 @@ def _safe_local(name, f, ctx, depth):
                     ann = norm(p.annotation) if p.annotation is not None else ""
                     if p.name in ("declaration", "declarations"):
                         continue  # text produced by the checked emitters themselves
+                    if g.cls is None and g.name.startswith("_") and g.qualname in getattr(ctx, "_k5_emitters", ()) and depth < 12:
+                        # a private helper of the emitters: the parameter is what its call sites pass
+                        idx = [q.name for q in g.params].index(p.name)
+                        found = 0
+                        verdicts = []
+                        for caller in inf.callers_of(g):
+                            for site in inf.sites(caller)[0]:
+                                if site.kind != "call" or getattr(site, "callee", None) is not g:
+                                    continue
+                                call = site.node
+                                arg = None
+                                if idx < len(call.args) and not any(isinstance(a, ast.Starred) for a in call.args[:idx + 1]):
+                                    arg = call.args[idx]
+                                for kw in call.keywords:
+                                    if kw.arg == p.name:
+                                        arg = kw.value
+                                if arg is None:
+                                    verdicts.append((False, f"parameter {name}: call site not understood"))
+                                else:
+                                    verdicts.append(_safe_interp(arg, caller, ctx, depth + 1))
+                                found += 1
+                        if found and all(v[0] for v in verdicts):
+                            continue
+                        if found:
+                            return [v for v in verdicts if not v[0]][0]
                     return False, f"parameter {name}"
                 if b[0] in ("assign", "aug"):
                     ok, why = _safe_interp(b[1], g, ctx, depth + 1)
@@ -867,13 +896,15 @@ def k7(ctx, res):
               detail={"opaque": sorted(opaque), "mismatches": bad},
               reason="only the key `_x_autotitle` is stripped from a literal; everything else is kept, in order, recursively")
     pe = ctx.func("parse_element")
-    ok = False
-    for n in walk_own(pe.body):
+    ok = None
+    for n in walk_own(view(pe, ctx.prog).body):
         if isinstance(n, ast.For) and str_elts(deref_const(ctx, pe, n.iter)) is not None \
-                and set(str_elts(deref_const(ctx, pe, n.iter))) == {"default", "const", "enum"}:
+                and {"default", "const", "enum"} & set(str_elts(deref_const(ctx, pe, n.iter))):
             k = norm(n.target)
-            ok = has(f"if {k} in schema:\n    schema[{k}] = _parse_literal(schema[{k}])", n.body)
-    res.check(ok, pe, "for literal_key in ('default', 'const', 'enum'): schema[k] = _parse_literal(schema[k])",
+            if has(f"schema[{k}] = _parse_literal(schema[{k}])", n.body) or has(f"schema[{k}] = _parse_literal(MV_x)", n.body):
+                ok = set(str_elts(deref_const(ctx, pe, n.iter))) == {"default", "const", "enum"} \
+                    and has(f"if {k} in schema:\n    schema[{k}] = _parse_literal(schema[{k}])", n.body)
+    res.judge(ok, pe, "for literal_key in ('default', 'const', 'enum'): schema[k] = _parse_literal(schema[k])",
               reason="exactly the three literal keywords are cleaned, and only when present")
 
 
